@@ -1,4 +1,4 @@
-\* repaired; an honest stream beside hijack / second Fin / floods
+\* repaired; an honest stream beside a hijacked number 0 / floods
 CONSTANTS Streams <- MCStreams Choices <- ChQ2 BadBatches <- MCBad InitHeight = 1 MaxHeight = 2
   InputCap = 2 OutCap = 1 MaxDup = 1 MaxExtra = 0 MaxGot = 2
   FixNilState = TRUE FixBlock = TRUE FixReFin = TRUE SeqWindow = 8 BufBound = 8 Mut = "none"
